@@ -162,6 +162,23 @@ def is_diverge(out):
 
 # =========================================================================== C13.2 / C13.3 k-mer iterators
 
+def _end_by_witness(h, out):
+    """the code decided yield / end without comparing pos with len directly: look for small (pos, len, K) that satisfy everything the
+    code did test on this path (and the struct invariant pos >= K >= 1) but for which `pos <= len` disagrees with what it returned"""
+    if not (isinstance(out, Adt) and out.variant in (0, 1)):
+        return [("inc", "next() returned %r" % (out,))]
+    yields = out.variant == 1
+    try:
+        env = h.find_model(["p", "n", "K"], lambda e: (e["p"] <= e["n"]) != yields, bound=6, extra=lambda e: e["K"] >= 1 and e["p"] >= e["K"])
+    except Exception as e:
+        return [("inc", "the end test does not compare pos with the sequence length (%s)" % e)]
+    if env is not None:
+        return ["with pos = %d, len = %d, K = %d (k-mer index %d of a sequence holding %d k-mers) the iterator %s; it must %s" % (
+            env["p"], env["n"], env["K"], env["p"] - env["K"], max(0, env["n"] - env["K"] + 1),
+            "yields an item" if yields else "ends", "end" if yields else "yield")]
+    return []
+
+
 def kmer_iter_tables(F, rep, rule="C13.2"):
     # ---- KmerIter::next
     body = anchor(F, rep, rule, "KmerIter::next", "<KmerIter<'a, K, D> as std::iter::Iterator>::next")
@@ -182,7 +199,7 @@ def kmer_iter_tables(F, rep, rule="C13.2"):
             lt = h.truth("Lt", {"p": 1, "n": -1}, 0)
             pr = []
             if le is None:
-                return [("inc", "the end test does not compare pos with the sequence length")]
+                return _end_by_witness(h, out)
             if le:
                 if not (isinstance(out, Adt) and out.variant == 1 and info_of(out.fields[0]).get("kmer") == "cur"):
                     pr.append("with pos <= len the iterator must yield the current k-mer, it returns %r" % (out,))
@@ -219,7 +236,7 @@ def kmer_iter_tables(F, rep, rule="C13.2"):
             lt = h.truth("Lt", {"p": 1, "n": -1}, 0)
             first = h.truth("Eq", {"p": 1, "K": -1}, 0)
             if le is None:
-                return [("inc", "the end test does not compare pos with the sequence length")]
+                return _end_by_witness(h, out)
             pr = []
             if not le:
                 if not (isinstance(out, Adt) and out.variant == 0):
